@@ -376,10 +376,10 @@ var sharedRules = map[string][]string{
 	"C09": {"C02/HND-AGREE", "C07/PAR-RESIZE", "C07/FRM-PAIR", "C07/INS-PATCH", "C07/PAR-GLOBALIDX", "C07/LAY-DEPTH", "C07/PAR-ROLE"},
 	"C10": {"C02/HND-AGREE"},
 	"C11": {"C04/REP-TYPEDSTORE", "C02/HND-AGREE", "C07/LAY-DEPTH"},
-	"C12": {"C04/REP-TYPEDSTORE", "C02/HND-AGREE"},
 	"C16": {"C15/LOAD-SORT", "C08/SCO-ORDER"},
 	"C19": {"C12/REP-STRUCT", "C11/REP-STACKESCAPE", "C03/PAN-CONVERT", "C20/BT-ORDER"},
 	"C20": {"C08/SCO-SWAP"}, "C08": {"C09/FRM-PARAMSLOT"},
+	"C17": {"C08/SCO-ORDER"}, "C12": {"C04/REP-TYPEDSTORE", "C02/HND-AGREE", "C08/SCO-ORDER"},
 }
 
 func withShared(pd *propDef) *propDef {
